@@ -21,8 +21,14 @@ arithmetic (weights x2, confidences x16 are integers on the grid):
   symmetry (harness)      the multiset reduction is validated by running every distinct ordering of
                           every multiset up to a smaller size and comparing decisions
 
-Two alphabets: FULL (39 voter kinds) for small electorates, REDUCED (15 kinds) up to the tier's
+Three alphabets: FULL (51 voter kinds incl. 12 odd-but-legal answers) for small electorates, PLAIN (FULL
+without the odd answers, 39 kinds) one voter further in the thorough tier, REDUCED (15 kinds) up to the tier's
 maximum electorate.
+
+  roads (VARIANTS)        every small (configuration, ballot) is also reached through the public mutators
+                          (add_agent / remove_agent / set_agent_weight / set_strategy), constructor arguments and
+                          options, earlier votes on the same object / on another object sharing the profiles, and
+                          reliability scores; same oracle + the decision must equal the fresh-object decision
 """
 from __future__ import annotations
 
@@ -30,6 +36,7 @@ import collections
 import fractions
 import itertools
 import math
+import sys
 
 from mc import common
 
@@ -44,13 +51,19 @@ C16 = (0, 4, 5, 16)  # confidence x16 -> 0, 1/4, 5/16, 1   (5/16 >= 0.3 > 1/4)
 MAXPOS = 7
 
 
-class Kind:
-    __slots__ = ("name", "cls", "w2", "c16", "weight", "conf", "action", "payload", "raises")
+NO_PROTEIN = object()  # express() returns None instead of an ActionProtein
 
-    def __init__(self, name, cls, w2, c16, action, payload, raises=False):
+
+class Kind:
+    __slots__ = ("name", "cls", "w2", "c16", "weight", "conf", "action", "payload", "raises", "grid", "odd")
+
+    def __init__(self, name, cls, w2, c16, action, payload, raises=None, grid=False):
         self.name, self.cls, self.w2, self.c16 = name, cls, w2, c16
         self.weight, self.conf = w2 / 2, c16 / 16
-        self.action, self.payload, self.raises = action, payload, raises
+        self.action, self.payload = action, payload
+        self.raises = raises  # None or a zero-argument callable building the exception the voter raises
+        self.grid = grid  # on the weight x confidence grid (has monotonicity edges)
+        self.odd = False  # one of the odd-but-legal answers (FULL alphabet only)
 
 
 def _kname(cls, w2, c16):
@@ -62,14 +75,31 @@ def _mk_kinds():
     for cls, act in (("P", "PERMIT"), ("B", "BLOCK")):
         for w2 in W2:
             for c16 in C16:
-                ks.append(Kind(_kname(cls, w2, c16), cls, w2, c16, act, {"confidence": c16 / 16}))
+                ks.append(Kind(_kname(cls, w2, c16), cls, w2, c16, act, {"confidence": c16 / 16}, grid=True))
     ks.append(Kind("P:execute", "P", 2, 16, "EXECUTE", None))  # EXECUTE verdict, no payload: permit, w=1, c=1
     ks.append(Kind("abstain", "A", 2, 16, "ABSTAIN", None))
     ks.append(Kind("defer", "D", 4, 16, "DEFER", {"confidence": 1.0}))
     ks.append(Kind("failure", "A", 4, 0, "FAILURE", "Apoptosis: Insufficient ATP"))
-    ks.append(Kind("raise", "A", 4, 16, None, None, raises=True))
+    ks.append(Kind("raise", "A", 4, 16, None, None, raises=lambda: RuntimeError("voter crashed")))
     ks.append(Kind("unknown", "A", 2, 16, "MAYBE", {"confidence": 1.0}))
     ks.append(Kind("badconf", "A", 2, 16, "PERMIT", {"confidence": "high"}))  # float("high") fails -> failed voter
+    # odd-but-legal answers of a voter (FULL alphabet only): missing / empty / falsy payloads, odd confidence types,
+    # no protein at all, exceptions with an empty message or of a class with a meaning of its own in loops / lookups
+    plain = len(ks)
+    ks.append(Kind("P:nopayload", "P", 2, 16, "PERMIT", None))
+    ks.append(Kind("B:nopayload", "B", 2, 16, "BLOCK", None))
+    ks.append(Kind("P:emptydict", "P", 2, 16, "PERMIT", {}))
+    ks.append(Kind("P:intconf", "P", 2, 16, "PERMIT", {"confidence": 1}))
+    ks.append(Kind("B:intzero", "B", 2, 0, "BLOCK", {"confidence": 0}))
+    ks.append(Kind("abstain:empty", "A", 2, 16, "", ""))
+    ks.append(Kind("abstain:none-action", "A", 2, 16, None, None))
+    ks.append(Kind("no-protein", "A", 2, 16, NO_PROTEIN, None))
+    ks.append(Kind("raise:empty", "A", 4, 16, None, None, raises=ValueError))
+    ks.append(Kind("raise:assert", "A", 4, 16, None, None, raises=AssertionError))
+    ks.append(Kind("raise:stopiteration", "A", 4, 16, None, None, raises=StopIteration))
+    ks.append(Kind("raise:keyerror", "A", 4, 16, None, None, raises=lambda: KeyError("")))
+    for k in ks[plain:]:
+        k.odd = True
     return ks
 
 
@@ -85,8 +115,10 @@ class Stub:
 
     def express(self, signal):
         k = self.kind
-        if k.raises:
-            raise RuntimeError("voter crashed")
+        if k.raises is not None:
+            raise k.raises()
+        if k.action is NO_PROTEIN:
+            return None
         return ActionProtein(k.action, k.payload, k.conf)
 
 
@@ -106,9 +138,9 @@ class Space:
         self.edges = []
         for k in self.kinds:
             e = []
-            if k.name != "P:execute" and k.cls == "B":
+            if k.grid and k.cls == "B":
                 e.append(("block-to-permit", self.idx[_kname("P", k.w2, k.c16)]))
-            if k.name != "P:execute" and k.cls == "P":
+            if k.grid and k.cls == "P":
                 wi = w_grid.index(k.w2)
                 if wi + 1 < len(w_grid):
                     e.append(("raise-weight", self.idx[_kname("P", w_grid[wi + 1], k.c16)]))
@@ -137,7 +169,8 @@ REDUCED = Space(
     _RW,
     _RC,
 )
-SPACES = {"full": FULL, "reduced": REDUCED}
+PLAIN = Space("plain", [n for n, k in KINDS.items() if not k.odd], W2, C16)  # FULL without the odd answers
+SPACES = {"full": FULL, "plain": PLAIN, "reduced": REDUCED}
 
 # ----------------------------------------------------------------------------- configurations
 
@@ -154,6 +187,7 @@ RATIO_THR = {None: None, 0.25: (1, 4), 0.75: (3, 4), 0.5: (1, 2)}
 # fractional COUNT thresholds ("a share of the colony"): float handed to the library -> the stated rational
 SHARES = {0.25: (1, 4), 0.3: (3, 10), 1 / 3: (1, 3), 0.5: (1, 2), 2 / 3: (2, 3), 0.75: (3, 4)}
 EMERGENCY_DEFAULT = (3, 10)  # EmergencyQuorum(emergency_threshold: float = 0.3)
+EMERGENCY_FLOAT = 0.3
 
 
 def share_of(cfg):
@@ -167,11 +201,13 @@ def share_of(cfg):
 
 
 def bounds(tier):
-    # nf: FULL alphabet electorates, nr: REDUCED alphabet electorates,
-    # sequences (all orderings): sf/sr = all configurations, sf4 = FULL n=4 for the float-valued strategies
+    # nf: FULL alphabet electorates, np: PLAIN alphabet (FULL without the odd answers; 0 = not needed, nf covers it),
+    # nr: REDUCED alphabet electorates,
+    # sequences (all orderings): sf/sr = all configurations, sp_float = PLAIN n=4 for the float-valued strategies
+    # vf/vr: electorates re-run through every other road to the same vote (VARIANTS), FULL / REDUCED alphabet
     if tier == "quick":
-        return dict(nf=3, nr=5, sf=2, sr=3, sr_mv1=4, sf_float=0)
-    return dict(nf=4, nr=7, sf=3, sr=4, sr_mv1=0, sf_float=4)
+        return dict(nf=3, np=0, nr=5, sf=2, sr=3, sr_mv1=4, sp_float=0, vf=1, vr=3)
+    return dict(nf=3, np=4, nr=7, sf=3, sr=4, sr_mv1=0, sp_float=4, vf=2, vr=4)
 
 
 def configs(tier):
@@ -210,6 +246,210 @@ def cast(cfg, space, seq):
     return q.run_vote("proposal")
 
 
+# ----------------------------------------------------------------------------- other roads to the same vote
+#
+# `cast` is the shortest road to a (configuration, ballot): a fresh object whose colony is assigned in one piece.
+# Every VARIANT below arrives at the SAME configuration and the SAME colony (same voters, same effective weights)
+# by another public road -- constructor arguments, public mutators between construction and the vote, non-default
+# options, earlier votes on the same object or on another object -- and the vote is then judged by the same
+# oracle and compared with the decision of the shortest road (the decision must follow the votes, not the road).
+
+XKIND = "P:w=2:c=1"  # the extra voters of a prefix are the strongest permit supporters: a leak over-permits
+XSTUBS = [Stub(f"x{i}", KINDS[XKIND]) for i in range(2)]
+
+VARIANTS = (
+    "ctor-n",                  # QuorumSensing(n_agents=n): built-in voters replaced by the stubs, set_agent_weight
+    "add-agent",               # n_agents=0, every voter through add_agent
+    "ctor-remove-add",         # n_agents=1, remove_agent, then every voter through add_agent
+    "remove-extras",           # colony with two extra voters (front, back), remove_agent both
+    "vote+remove-extras",      # ... with a vote before the removal
+    "vote+replace-colony",     # vote with one other voter, remove it, add_agent the ballot's voters
+    "vote-twice",              # the same vote run twice on one object; the second one is judged
+    "set-weight",              # voters start with other weights, set_agent_weight to the ballot's
+    "vote+set-weight",         # ... with a vote before the weights are set
+    "set-strategy",            # constructed with a lenient other strategy/threshold, set_strategy to the configuration
+    "vote+set-strategy",       # ... with a vote before set_strategy
+    "reliability-split",       # weight w realised as profile.weight=2w x reliability_score=1/2 (w=0: 1 x 0)
+    "options",                 # timeout_seconds=0, enable_reliability_tracking=False, both callbacks installed
+    "loud",                    # silent=False (output swallowed)
+    "other-instance-first",    # another object of the other class votes first with the very same AgentProfile objects
+    "reliability-after-permit",  # vote, update_all_reliability(PERMIT), vote again: weights x observed reliability
+    "reliability-after-block",   # vote, update_all_reliability(BLOCK), vote again
+)
+
+
+class _Sink:
+    def write(self, s):
+        return len(s)
+
+    def flush(self):
+        pass
+
+
+def _new(cfg, n_agents=0, lenient=False, **kw):
+    s, thr, mv = cfg
+    kw.setdefault("silent", True)
+    if s == "emergency":
+        if lenient:
+            return EmergencyQuorum(n_agents, BUDGET, emergency_threshold=0.05, **kw)
+        if thr is None:
+            return EmergencyQuorum(n_agents, BUDGET, **kw)
+        return EmergencyQuorum(n_agents, BUDGET, emergency_threshold=thr, **kw)
+    if lenient:  # one permit vote is enough under the lenient configuration
+        st = VotingStrategy.MAJORITY if s == "threshold" else VotingStrategy.THRESHOLD
+        return QuorumSensing(n_agents, BUDGET, strategy=st, threshold=0.05, min_voters=mv, **kw)
+    return QuorumSensing(n_agents, BUDGET, strategy=STRAT[s], threshold=thr, min_voters=mv, **kw)
+
+
+def _profiles(space, seq):
+    kinds, stubs = space.kinds, space.stubs
+    return [AgentProfile(agent=stubs[k][i], weight=kinds[k].weight) for i, k in enumerate(seq)]
+
+
+def _extras():
+    return [AgentProfile(agent=x, weight=x.kind.weight) for x in XSTUBS]
+
+
+def _add_all(q, space, seq):
+    for i, k in enumerate(seq):
+        prof = q.add_agent(f"v{i}", weight=space.kinds[k].weight)
+        prof.agent = space.stubs[k][i]
+
+
+def cast_variant(cfg, space, seq, var):
+    """-> (result of the judged vote, effective weights x2 or None, callback log or None, colony)"""
+    kinds, stubs = space.kinds, space.stubs
+    w2s = cb = None
+    if var == "ctor-n":
+        q = _new(cfg, n_agents=len(seq))
+        for i, k in enumerate(seq):
+            q.set_agent_weight(f"Bacterium_{i}", kinds[k].weight)
+            q.colony[i].agent = stubs[k][i]
+    elif var == "add-agent":
+        q = _new(cfg)
+        _add_all(q, space, seq)
+    elif var == "ctor-remove-add":
+        q = _new(cfg, n_agents=1)
+        q.remove_agent("Bacterium_0")
+        _add_all(q, space, seq)
+    elif var in ("remove-extras", "vote+remove-extras"):
+        q = _new(cfg)
+        x = _extras()
+        q.colony = [x[0]] + _profiles(space, seq) + [x[1]]
+        if var[0] == "v":
+            q.run_vote("earlier proposal")
+        q.remove_agent("x0")
+        q.remove_agent("x1")
+    elif var == "vote+replace-colony":
+        q = _new(cfg)
+        q.colony = _extras()[:1]  # a colony of one: smaller than every ballot it is replaced by (n >= 2)
+        q.run_vote("earlier proposal")
+        q.remove_agent("x0")
+        _add_all(q, space, seq)
+    elif var == "vote-twice":
+        q = _new(cfg)
+        q.colony = _profiles(space, seq)
+        q.run_vote("proposal")
+    elif var in ("set-weight", "vote+set-weight"):
+        q = _new(cfg)
+        q.colony = _profiles(space, seq)
+        for prof, k in zip(q.colony, seq):  # stale weights favour PERMIT: permit voters heavy, everyone else weightless
+            prof.weight = 2.0 if kinds[k].cls == "P" else 0.0
+        if var[0] == "v":
+            q.run_vote("earlier proposal")
+        for i, k in enumerate(seq):
+            q.set_agent_weight(f"v{i}", kinds[k].weight)
+    elif var in ("set-strategy", "vote+set-strategy"):
+        q = _new(cfg, lenient=True)
+        q.colony = _profiles(space, seq)
+        if var[0] == "v":
+            q.run_vote("earlier proposal")
+        s, thr, _mv = cfg
+        if s == "emergency":
+            q.set_strategy(VotingStrategy.THRESHOLD, EMERGENCY_FLOAT if thr is None else thr)
+        else:
+            q.set_strategy(STRAT[s], thr)
+    elif var == "reliability-split":
+        q = _new(cfg)
+        q.colony = [
+            AgentProfile(agent=stubs[k][i], weight=2 * kinds[k].weight, reliability_score=0.5) if kinds[k].w2
+            else AgentProfile(agent=stubs[k][i], weight=1.0, reliability_score=0.0)
+            for i, k in enumerate(seq)
+        ]
+    elif var == "options":
+        cb = []
+        kw = dict(enable_reliability_tracking=False, on_quorum_reached=lambda r: cb.append(("reached", r)),
+                  on_quorum_failed=lambda r: cb.append(("failed", r)))
+        if cfg[0] != "emergency":  # EmergencyQuorum fixes its own timeout
+            kw["timeout_seconds"] = 0
+        q = _new(cfg, **kw)
+        q.colony = _profiles(space, seq)
+    elif var == "loud":
+        old = sys.stdout
+        sys.stdout = _Sink()
+        try:
+            q = _new(cfg, silent=False)
+            q.colony = _profiles(space, seq)
+            return q.run_vote("proposal"), None, None, q.colony
+        finally:
+            sys.stdout = old
+    elif var == "other-instance-first":
+        profs = _profiles(space, seq)
+        if cfg[0] == "emergency":
+            o = QuorumSensing(0, BUDGET, strategy=VotingStrategy.THRESHOLD, threshold=1, min_voters=0, silent=True)
+        else:
+            o = EmergencyQuorum(0, BUDGET, emergency_threshold=0.05, silent=True)
+        o.colony = list(profs)
+        o.run_vote("earlier proposal")
+        q = _new(cfg)
+        q.colony = profs
+    elif var in ("reliability-after-permit", "reliability-after-block"):
+        q = _new(cfg)
+        q.colony = _profiles(space, seq)
+        q.run_vote("earlier proposal")
+        q.update_all_reliability(VoteType.PERMIT if var.endswith("permit") else VoteType.BLOCK)
+        # the reliability score is a public input of the next vote (AgentProfile.reliability_score); how it is
+        # tracked is not this property's business, so it is read back, not modelled
+        w2s = [fractions.Fraction(kinds[k].w2) * fractions.Fraction(prof.reliability_score) for prof, k in zip(q.colony, seq)]
+    else:
+        raise common.HarnessError(f"unknown variant {var}")
+    return q.run_vote("proposal"), w2s, cb, q.colony
+
+
+def run_variant(cfg, space, seq, var, base_permit, base_keys=()):
+    """-> (permit, violations [(key, what)], result)   keys carry the variant; includes the differential clause.
+    base_keys: clause keys the shortest road already violates for this very case (reported there, not repeated)."""
+    s = cfg[0]
+    names = [space.names[i] for i in seq]
+    try:
+        res, w2s, cb, colony = cast_variant(cfg, space, seq, var)
+    except common.HarnessError:
+        raise
+    except Exception as e:  # noqa: BLE001
+        permit, viols, _info = judge(cfg, space, seq, None, e)
+        return permit, [(f"{k}@{var}", f"{w} [road: {var}]") for k, w in viols if k not in base_keys], None
+    permit, viols, _info = judge(cfg, space, seq, res, None, w2s)
+    viols = [(f"{k}@{var}", f"{w} [road: {var}]") for k, w in viols if k not in base_keys]
+    if cb is not None:
+        fired = [c[0] for c in cb]
+        if "reached" in fired and not (permit and all(r.decision == VoteType.PERMIT for c, r in cb if c == "reached")):
+            viols.append((f"reached-callback-without-permit:{s}", f"{cfg}: on_quorum_reached fired but the vote is reported as "
+                          f"{res.decision} (callbacks fired: {fired}), ballot {names}"))
+    if w2s is not None:
+        # differential partner: a fresh object given the same weights and the same (observed) reliability scores
+        q = _new(cfg)
+        q.colony = [AgentProfile(agent=p.agent, weight=p.weight, reliability_score=p.reliability_score) for p in colony]
+        try:
+            base_permit = q.run_vote("proposal").decision == VoteType.PERMIT
+        except Exception:  # noqa: BLE001
+            base_permit = False
+    if permit != base_permit:
+        viols.append((f"variant-differs:{var}:{s}", f"{cfg}: ballot {names} is {'PERMIT' if permit else 'not PERMIT'} when reached via "
+                      f"'{var}' but {'PERMIT' if base_permit else 'not PERMIT'} on a fresh object with the same configuration, "
+                      "voters and weights: the decision does not follow the votes"))
+    return permit, viols, res
+
+
 # ----------------------------------------------------------------------------- reference (from the statement)
 
 _CLS2VT = {"P": VoteType.PERMIT, "B": VoteType.BLOCK, "A": VoteType.ABSTAIN, "D": VoteType.DEFER}
@@ -220,10 +460,23 @@ def _gt(num, den, thr):
     return den > 0 and num * thr[1] > thr[0] * den
 
 
-def reference(cfg, kinds_seq):
-    """-> (p, b, a, d, may_permit, must_permit, readings_differ)   may_permit None = no crisp criterion"""
+class _V:
+    """One voter as the reference sees it: class, effective weight x2 (exact), confidence x16."""
+
+    __slots__ = ("cls", "w2", "c16")
+
+    def __init__(self, cls, w2, c16):
+        self.cls, self.w2, self.c16 = cls, w2, c16
+
+
+def reference(cfg, kinds_seq, w2s=None):
+    """-> (p, b, a, d, may_permit, must_permit, readings_differ)   may_permit None = no crisp criterion
+    w2s: per-voter effective weight x2 (exact int / Fraction) when it is not the kind's own grid weight
+    (the library documents effective weight = configured weight x reliability score)."""
     s, thr, mv = cfg
     n = len(kinds_seq)
+    if w2s is not None:
+        kinds_seq = [_V(k.cls, w, k.c16) for k, w in zip(kinds_seq, w2s)]
     P = [k for k in kinds_seq if k.cls == "P"]
     Bk = [k for k in kinds_seq if k.cls == "B"]
     p, b = len(P), len(Bk)
@@ -278,14 +531,14 @@ def reference(cfg, kinds_seq):
     return p, b, a, d, may, must, differ
 
 
-def judge(cfg, space, seq, res, exc=None):
+def judge(cfg, space, seq, res, exc=None, w2s=None):
     """-> (permit: bool, violations [(key, what)], info)"""
     s = cfg[0]
     ks = [space.kinds[i] for i in seq]
     names = [k.name for k in ks]
     if exc is not None:
         return False, [(f"raises:{s}:{type(exc).__name__}", f"run_vote raised {type(exc).__name__}: {exc} for {cfg} ballot {names}")], None
-    p, b, a, d, may, must, differ = reference(cfg, ks)
+    p, b, a, d, may, must, differ = reference(cfg, ks, w2s)
     v = []
     permit = res.decision == VoteType.PERMIT
     if bool(res.reached) != permit or not isinstance(res.reached, bool):
@@ -470,8 +723,35 @@ def task_perms(arg):
     return acc.data()
 
 
+def task_variants(arg):
+    """Every multiset n = 1..N of one space under one configuration, reached by every other road (VARIANTS)."""
+    cfg, space_name, N = arg
+    sp = SPACES[space_name]
+    acc = Acc()
+    s = cfg[0]
+    for n in range(1, N + 1):
+        for t in _multisets(sp, n):
+            base, bviols, _i, _r = run_judge(cfg, sp, t)  # judged and reported by the table task of this configuration
+            bkeys = {k for k, _w in bviols}
+            acc.add("executions")
+            for var in VARIANTS:
+                permit, viols, res = run_variant(cfg, sp, t, var, base, bkeys)
+                acc.add("executions")
+                acc.add("variant_runs")
+                if permit:
+                    acc.add("variant_permits")
+                if res is not None:
+                    acc.outcomes.add((s, res.decision.value, bool(res.reached)))
+                for key, what in viols:
+                    acc.report(key, what, cfg, sp, t, None, "variant:" + var)
+    return acc.data()
+
+
+_TASKS = {"T": task_tables, "P": task_perms, "V": task_variants}
+
+
 def _dispatch(arg):
-    return (task_tables if arg[0] == "T" else task_perms)(arg[1])
+    return _TASKS[arg[0]](arg[1])
 
 
 # ----------------------------------------------------------------------------- driver
@@ -527,13 +807,17 @@ def run(ctx):
     tasks = []
     for cfg in cfgs:
         tasks.append((FULL.size(bd["nf"]), ("T", (cfg, "full", bd["nf"], 0))))
-        tasks.append((REDUCED.size(bd["nr"]), ("T", (cfg, "reduced", bd["nr"], bd["nf"] + 1))))
+        if bd["np"] > bd["nf"]:
+            tasks.append((PLAIN.size(bd["np"]), ("T", (cfg, "plain", bd["np"], bd["nf"] + 1))))
+        tasks.append((REDUCED.size(bd["nr"]), ("T", (cfg, "reduced", bd["nr"], max(bd["nf"], bd["np"]) + 1))))
+        tasks.append((FULL.size(bd["vf"]) * len(VARIANTS) * 2, ("V", (cfg, "full", bd["vf"]))))
+        tasks.append((REDUCED.size(bd["vr"]) * len(VARIANTS) * 2, ("V", (cfg, "reduced", bd["vr"]))))
         is_float = cfg[0] in ("weighted", "confidence", "bayesian") and cfg[2] == 1
         plan = [("full", n) for n in range(2, bd["sf"] + 1)] + [("reduced", n) for n in range(2, bd["sr"] + 1)]
         if bd["sr_mv1"] and cfg[2] == 1:
             plan.append(("reduced", bd["sr_mv1"]))
-        if bd["sf_float"] and is_float:
-            plan.append(("full", bd["sf_float"]))
+        if bd["sp_float"] and is_float:
+            plan.append(("plain", bd["sp_float"]))
         for sname, n in plan:
             cost = SPACES[sname].K ** n
             J = max(1, cost // 150000)
@@ -585,20 +869,30 @@ def run(ctx):
         evaluations=tot.get("executions", 0),
         distinct_nontrivial=tot.get("nontrivial", 0),
         rule="every multiset of voter kinds (FULL alphabet: permit|block x weight{0,1/2,1,2} x confidence{0,1/4,5/16,1}, EXECUTE, "
-        "abstain, defer, FAILURE, raising, unknown verdict, malformed confidence = 39 kinds for n<=nf; REDUCED 15 kinds for n<=nr) x every "
+        "abstain, defer, FAILURE, raising, unknown verdict, malformed confidence, plus odd-but-legal answers: PERMIT/BLOCK without payload, "
+        "empty-dict payload, int / int-zero confidence, empty and None action type, no protein at all, exceptions with an empty "
+        "message (ValueError(), failing bare assert), StopIteration, KeyError('') = 51 kinds for n<=nf; PLAIN = the first 39 for n<=np; REDUCED 15 kinds for n<=nr) x every "
         "configuration (7 strategies x default/1/4/3/4 thresholds or counts 1..nr or colony shares 1/4, 3/10, 1/3, 1/2, 2/3, 3/4 x min_voters 1..3, plus "
         "min_voters 0 with default and 1/4 thresholds, EmergencyQuorum default and the same six shares), each "
         "cast through the real run_vote; a state is a distinct (configuration, multiset); non-trivial = at least one permit vote and the "
         "min_voters gate is passed; transitions = edges of the ballot graph checked (block->permit, weight/confidence one grid step up, "
-        "add one non-voter); orderings of multisets are re-run for the symmetry validation and counted only as executions",
+        "add one non-voter); orderings of multisets are re-run for the symmetry validation and counted only as executions; "
+        "every (configuration, multiset) with n<=vf (FULL) / n<=vr (REDUCED) is additionally reached by every other public road "
+        "(variants: constructor n_agents, add_agent / remove_agent / set_agent_weight / set_strategy between construction and the vote, "
+        "with and without an earlier vote on the same object, an earlier vote of another instance sharing the profiles, non-default "
+        "options and callbacks, silent=False, weight realised through reliability_score, update_all_reliability between two votes), "
+        "judged by the same oracle and compared with the fresh-object decision; these count as executions only",
         exhaustive=not od,
         bounds=bd,
         configurations=len(cfgs),
-        alphabet_sizes={"full": FULL.K, "reduced": REDUCED.K},
+        alphabet_sizes={"full": FULL.K, "plain": PLAIN.K, "reduced": REDUCED.K},
         orderings_compared=tot.get("orderings_compared", 0),
         order_dependent=od,
         boundary_skipped=0,
         permit_decisions=tot.get("permit_decisions", 0),
+        variants=list(VARIANTS),
+        variant_runs=tot.get("variant_runs", 0),
+        variant_permits=tot.get("variant_permits", 0),
         share_clause_forbids_permit=tot.get("share_clause_forbids_permit", 0),
     )
     ctx.assumptions += [
@@ -612,8 +906,13 @@ def run(ctx):
         "_threshold_vote: 'a share of the colony, never less than one permit' -> PERMIT => permits >= share x len(colony) and >= 1, "
         "colony = all voters incl. abstaining/failed ones; asserted one-directionally (a higher bar is not judged); the stated rational "
         "and the float handed to the library decide every explored (permits, size) identically (checked at start)",
-        "custom fractional thresholds are drawn from (0,1); reliability_score stays 1.0; multiset reduction relies on the symmetry "
+        "custom fractional thresholds are drawn from (0,1); multiset reduction relies on the symmetry "
         "validation up to the stated sequence bounds",
+        "a voter's weight is the library's documented effective weight profile.weight x profile.reliability_score (exact: scores 0, 1/2, 1); "
+        "after update_all_reliability the score is read back from the public AgentProfile field as an input of the next vote, not modelled",
+        "the decision is a function of (configuration, colony): a vote reached through public mutators, other options, or after earlier "
+        "votes on the same or another object must decide like a fresh object with the same configuration, voters and weights "
+        "(asserted in both directions: 'decisions follow the votes'); on_quorum_reached firing counts as reporting 'reached'",
     ]
 
 
@@ -623,8 +922,11 @@ def replay(ctx, case):
     sp = FULL
     seq = tuple(sp.idx[n] for n in case["ballot"])
     permit, viols, _i, _r = run_judge(cfg, sp, seq)
-    out += viols
     rel = case.get("relation", "single")
+    if rel.startswith("variant:"):
+        _p, vviols, _r = run_variant(cfg, sp, seq, rel.split(":", 1)[1], permit, {k for k, _w in viols})
+        return vviols
+    out += viols
     if case.get("other") is not None:
         oseq = tuple(sp.idx[n] for n in case["other"])
         op, oviols, _i, _r = run_judge(cfg, sp, oseq)
